@@ -10,7 +10,8 @@ LEVEL = "model_checking"
 ANCHOR_PREFIXES = ["transform::process_tags", "transform::", "context::", "element::SvgElement::bbox", "element::SvgElement::eval_rel", "element::SvgElement::handle_containment", "element::split_relspec",
                    "element::SvgElement::resolve_position", "position::", "connector::"]
 BOUNDS = ("reference DAGs over 2-4 id'd sibling elements built from {absolute rect/circle, |h |V placement, @loc placement, relative size, scalar reference, {{#id~scalar}} expression references, group with relatively positioned content, dw/dh-adjusted target, surround of 1-2, inside of 2, use, "
-          "line and polyline connectors}; every one of the n! sibling orders; size spelled wh or width/height, position spelled xy or x/y; positions k/2 in [-256,256], sizes integers in [0,64], "
+          "line and polyline connectors, elements with absolute compound geometry held back by a non-geometry attribute (data attribute, text, rx), relatively placed path, polyline with referenced points, "
+          "group clipped by a clip path that follows the parent, clip path as a node of its own with a group clipped by it}; every one of the n! sibling orders; size spelled wh or width/height, position spelled xy or x/y; positions k/2 in [-256,256], sizes integers in [0,64], "
           "gaps k/2 in [-16,16]; connector templates: the paths reached from the seeded valuations (no exhaustive negation); '^' excluded as the property says")
 ASSUMPTIONS = ["the dependency-ordered document (every element after the elements it refers to) defines the expected geometry; both documents run in one engine session over the same variables",
                "unsatisfiable references (unknown id, cycle, target without bounding box) are ground queries: no symbolic quantity involved"]
